@@ -8,20 +8,21 @@
   i.e. after the repair of the counter-clockwise sign test). Helper lemmas:
   EG/Lemmas/TriangleContains.lean, EG/Lemmas/TrianglePoints.lean.
 
-  Proved for all vertex triples: what `contains()` accepts (bounding box, non-zero area, closed
-  three-half-plane test or a point of one of the three Bresenham edge lines of the sorted triangle),
-  that it rejects everything outside the bounding box and everything when the area is zero, that it
-  does not depend on the vertex order and moves with the triangle.
-
-  Not proved (full statement `PointsEqFilterContains` below; the scanline/Bresenham rasteriser
-  against the half-plane test is the geometric core):
-  -- [V] for non-zero area every point yielded by points() is accepted by contains() (`PointsImpContains`: a covered point that is not an edge pixel passes the closed barycentric test; with it `PointsEqFilterContains`, points() = the row-major points of the bounding box filtered by contains(); proved here: the converse inclusion, inside the box, row-major, each once): carried by correspondence + oracle only
+  Everything is proved, for all vertex triples (unbounded integers): what `contains()` accepts
+  (bounding box, non-zero area, closed three-half-plane test or a pixel of one of the three
+  Bresenham edge lines of the sorted triangle), that it rejects everything outside the bounding box
+  and everything when the area is zero, that it does not depend on the vertex order; and, for
+  non-zero area and a bounding box within the `i32` range (`Rect.InRange`: `Rectangle::rows()` /
+  `columns()` do not saturate), `points() = bounding_box().points().filter(contains)` as lists —
+  hence each point once, in row-major order, all inside `bounding_box()`.
+  No sub-claim of the triangle part is left to correspondence + oracle alone.
 -/
 import EG.Lemmas.TriangleContains
 import EG.Lemmas.TrianglePoints
 import EG.Lemmas.RectPoints
 import EG.Lemmas.TriangleSpan
 import EG.Lemmas.TriangleCover
+import EG.Lemmas.TriangleExact
 namespace EG.C05
 open EG EG.Triangle
 
@@ -130,13 +131,29 @@ theorem triangle_filter_contains_subset_points (t : Triangle) (h : t.boundingBox
     (hp : p ∈ t.boundingBox.points.filter t.contains) : p ∈ t.points :=
   triangle_contains_imp_points t h p (List.mem_filter.mp hp).2
 
-/-- [V] The converse inclusion, the remaining half of `PointsEqFilterContains`: a point between
-two edge pixels of its row that is not itself an edge pixel passes the closed barycentric test. -/
-def PointsImpContains : Prop := ∀ (t : Triangle), t.areaDoubled ≠ 0 → t.boundingBox.InRange →
-  ∀ p ∈ t.points, t.contains p = true
+/-- Every point yielded by `points()` is accepted by `contains()`: a point between two edge
+pixels of its row that is not itself an edge pixel passes the closed barycentric test. -/
+theorem triangle_points_imp_contains (t : Triangle) (h : t.boundingBox.InRange)
+    (ha : t.areaDoubled ≠ 0) (p : Pt) (hp : p ∈ t.points) : t.contains p = true :=
+  contains_of_mem_points t h ha p hp
 
-/-- [V] Full statement of the triangle part of C05. -/
-def PointsEqFilterContains : Prop := ∀ (t : Triangle), t.areaDoubled ≠ 0 → t.boundingBox.InRange →
-  t.points = t.boundingBox.points.filter t.contains
+example : (⟨⟨0, 0⟩, ⟨5, 1⟩, ⟨4, 6⟩⟩ : Triangle).boundingBox.InRange ∧
+    (⟨⟨0, 0⟩, ⟨5, 1⟩, ⟨4, 6⟩⟩ : Triangle).areaDoubled ≠ 0 ∧
+    (⟨3, 2⟩ : Pt) ∈ (⟨⟨0, 0⟩, ⟨5, 1⟩, ⟨4, 6⟩⟩ : Triangle).points := by decide
+
+/-- **`points()` is `bounding_box().points()` filtered by `contains()`**, as lists: same points,
+same (row-major) order, same multiplicity — for every triangle with non-zero area. -/
+theorem triangle_points_eq_filter_contains (t : Triangle) (h : t.boundingBox.InRange)
+    (ha : t.areaDoubled ≠ 0) : t.points = t.boundingBox.points.filter t.contains :=
+  points_eq_filter_contains t h ha
+
+example : (⟨⟨-4, 3⟩, ⟨5, -1⟩, ⟨2, 9⟩⟩ : Triangle).boundingBox.InRange ∧
+    (⟨⟨-4, 3⟩, ⟨5, -1⟩, ⟨2, 9⟩⟩ : Triangle).areaDoubled ≠ 0 := by decide
+
+/-- The exclusion "with non-zero area" is needed: a colinear triangle yields its line `p1 p3` while
+`contains()` rejects every point. -/
+theorem triangle_zero_area_points_not_contained :
+    (⟨⟨2, 2⟩, ⟨4, 2⟩, ⟨4, 2⟩⟩ : Triangle).points = [⟨2, 2⟩, ⟨3, 2⟩, ⟨4, 2⟩] ∧
+    (⟨⟨2, 2⟩, ⟨4, 2⟩, ⟨4, 2⟩⟩ : Triangle).contains ⟨3, 2⟩ = false := by decide
 
 end EG.C05
